@@ -87,6 +87,7 @@ SAN = ["-fsanitize=address,undefined", "-fno-sanitize-recover=undefined"]
 HARNESS = {
     # name: (source, compiler, flags, libs, config kwargs)
     "h_exact": dict(src="h_exact.cpp", cxx="clang++", flags=["-O1", "-g"] + SAN, libs=["-lrapidcheck", "-ltbb", "-lboost_timer"]),
+    "h_approx": dict(src="h_approx.cpp", cxx="clang++", flags=["-O1", "-g"] + SAN, libs=["-lrapidcheck", "-ltbb", "-lboost_timer"]),
     "h_alg": dict(src="h_alg.cpp", cxx="clang++", flags=["-O1", "-g"] + SAN, libs=["-lrapidcheck"]),
     "h_comp": dict(src="h_comp.cpp", cxx="clang++", flags=["-O1", "-g"] + SAN, libs=["-lrapidcheck", "-ltbb", "-lboost_timer"]),
 }
@@ -186,6 +187,30 @@ prop("C02", harness="h_exact",
                   "reference de Pina implementation is cross-validated against the brute force in the self-test of each run"])
 
 
+prop("C05", harness="h_approx",
+     quick=dict(shards=16, cases=3000, env={"VERIF_MAXN": "16"}),
+     thorough=dict(shards=16, cases=20000, env={"VERIF_MAXN": "40"}),
+     rule="Generated graphs x exact palettes x {double,int} x k in {1,2,3,4..8,100,10^6,2^62+1} x three sequential approximate entry points; "
+          "oracle: exactly m-n+c cycles, each one simple cycle expressed in edge descriptors OF THE CALLER'S GRAPH (property-address identity, "
+          "checked and dereferenced through the caller's weight map after the call returned, under ASan), GF(2) rank == count, returned == exact "
+          "sum under the caller's weights. Non-trivial = the spanner kept at least one cycle (so the exact phase contributed) and at least one "
+          "edge was dropped (read through the guarded accessors).",
+     assumptions=["exact weight domain", "Graph has an interior edge_weight property of the weight type (required by BaseApproxSpannerAlgorithm)"])
+prop("C06", harness="h_approx",
+     quick=dict(shards=16, cases=3000, env={"VERIF_MAXN": "12"}),
+     thorough=dict(shards=16, cases=20000, env={"VERIF_MAXN": "30"}),
+     rule="As C05 plus k=0; oracle: exact integer comparison sum <= (2k-1)*opt and sum >= opt against the reference optimum (brute force / de Pina); "
+          "k=1: sum == opt and equal sorted weight vectors; k=0: a std::exception is thrown and nothing is emitted. Non-trivial = k>=2 and >=1 "
+          "dropped edge (class 'approximation-strictly-worse-than-optimum' counts the cases where the bound is really exercised).",
+     assumptions=["exact weight domain; bound checked for k <= 10^6 (for larger k it is implied by validity)"])
+prop("C15", harness="h_approx",
+     quick=dict(shards=16, cases=3000, env={"VERIF_MAXN": "20"}),
+     thorough=dict(shards=16, cases=25000, env={"VERIF_MAXN": "40"}),
+     rule="BaseApproxSpannerAlgorithm constructed (no run) on generated graphs with tie-heavy palettes, k in 1..8; oracle through the guarded read-only "
+          "accessors: spanner has n vertices; translation map is a bijection between spanner edges and retained input edges with equal endpoints; "
+          "spanner weight == input weight per retained edge; retained and dropped partition E; every dropped (u,v) has a BFS path of <= 2k-1 "
+          "retained edges none heavier than it; BFS girth of the retained subgraph > 2k. Non-trivial = k>=2, >=1 dropped edge, retained subgraph has a cycle.",
+     assumptions=["exact weight domain", "hook PARMCB_VERIF accessors are read-only"])
 prop("C17", harness="h_alg",
      quick=dict(shards=16, cases=5000),
      thorough=dict(shards=16, cases=150000),
@@ -519,11 +544,12 @@ def run_rc_property(pid, tier, conf=None):
             if ok:
                 if not any(v[0] == fk for v in violations):
                     violations.append((fk, m2 or msg, path))
-                else:
+                elif not any(v[2] == path for v in violations):
                     os.remove(path)
             else:
                 notes.append("non-reproducible failure %s (%s) -> flaky, not reported" % (fk, msg[:200]))
-                os.remove(path)
+                if not any(v[2] == path for v in violations):
+                    os.remove(path)
 
     # 3. known findings
     for f in findings:
